@@ -10,7 +10,8 @@ returns empty for tiles not contained in the limit (C10.e); feature info is gate
 limit (C10.f).
 Added in round 4: a re-projected limit geometry keeps its holes (C10.k, shared C17.i); the clipped
 tile is alpha-composited onto a transparent canvas, never pasted with itself as mask (C10.l).
-Added in round 5: the geometry of a limit is taken as given (C10.m)."""
+Added in round 5: the geometry of a limit is taken as given (C10.m).
+Added in round 6: enclosing polygons are painted first (C10.n)."""
 import ast
 
 from ..engine import rule
